@@ -203,6 +203,14 @@ func (p *Pool) MarkUnavailable(ip net.IP) {
 
 	p.unavailable[ip.String()] = struct{}{}
 
+	// Drop the allocation so the address is neither handed to its former
+	// holder again nor returned to the free list by a later Release
+	for mac, allocatedIP := range p.allocated {
+		if allocatedIP.Equal(ip) {
+			delete(p.allocated, mac)
+		}
+	}
+
 	// Remove from available
 	for i, avail := range p.available {
 		if avail.Equal(ip) {
